@@ -486,6 +486,9 @@ func (e *ssaEval) instr(fr *frame, ins ssa.Instruction) {
 		fld := x.X.Type().Underlying().(*types.Pointer).Elem().Underlying().(*types.Struct).Field(x.Field)
 		if a.k == svAddr || a.k == svSym {
 			set(x, sv{k: svAddr, s: a.s + "." + fld.Name()})
+		} else if !a.known() {
+			// a field of something defined outside the evaluated region
+			set(x, sv{k: svAddr, s: "?" + x.X.Name() + "." + fld.Name()})
 		}
 	case *ssa.IndexAddr:
 		a, i := e.val(fr, x.X), e.val(fr, x.Index)
